@@ -979,17 +979,23 @@ func runFD08(p *Prog, r *RuleRun) {
 			}
 			return ""
 		},
-		Effect: func(ins ssa.Instruction, eval func(ssa.Value) fdVal) (string, bool) {
+		// helpers of the verifier package are walked as part of verify (the checks may live in a function that
+		// returns the error which verify then stores); a helper that itself reads the range is the READ step
+		Inline: func(callee *ssa.Function) bool {
+			return pkgRelOf(p, callee) == "verifier" && !callsEvent(callee, func(n string) bool { return n == "raft.LogStore.GetLog" })
+		},
+		EffectR: func(ins ssa.Instruction, eval func(ssa.Value) fdVal, resolve func(ssa.Value) ssa.Value) (string, bool) {
 			switch x := ins.(type) {
 			case *ssa.Store:
 				if fv := fieldOfAddr(x.Addr); fv != nil && fv.Name() == "Err" {
-					switch v := x.Val.(type) {
+					val := resolve(x.Val)
+					switch v := val.(type) {
 					case *ssa.MakeInterface:
 						if strings.Contains(v.X.Type().String(), "ErrChecksumMismatch") {
 							return "MISMATCH", false
 						}
 					}
-					if isGlobalLoad(x.Val, "ErrRangeMismatch") {
+					if isGlobalLoad(val, "ErrRangeMismatch") {
 						return "RANGE", false
 					}
 					return "ERR(other)", false
@@ -1002,7 +1008,7 @@ func runFD08(p *Prog, r *RuleRun) {
 					return "READ", true // the read loop: stop, its effect on R is symbolic
 				}
 				if callee := x.Common().StaticCallee(); callee != nil && pkgRelOf(p, callee) == "verifier" &&
-					p.reaches(callee, func(ci ssa.CallInstruction) bool { return eventName(ci) == "raft.LogStore.GetLog" }) {
+					callsEvent(callee, func(n string) bool { return n == "raft.LogStore.GetLog" }) {
 					return "READ", true // the read loop in a helper
 				}
 			}
@@ -1044,53 +1050,113 @@ func runFD08(p *Prog, r *RuleRun) {
 		"the verifier's write-side / range comparisons deviate from the stated polarity: "+strings.Join(bad, " | "))
 	// Part 2: the read-side comparison: the last store to Err of a mismatch is guarded by ReadSum != ExpectedSum
 	okRead := false
-	vfLive := liveBlocks(vf)
-	for _, b := range vf.Blocks {
-		ifi, ok := b.Instrs[len(b.Instrs)-1].(*ssa.If)
-		if !ok || !vfLive[b] {
-			continue
+	cmpFns := []*ssa.Function{vf}
+	for fn := range p.reachableFuncs(vf) {
+		if fn != vf && pkgRelOf(p, fn) == "verifier" {
+			cmpFns = append(cmpFns, fn)
 		}
-		bo, ok := ifi.Cond.(*ssa.BinOp)
-		if !ok || (bo.Op != token.NEQ && bo.Op != token.EQL) {
-			continue
-		}
-		l, rr := fieldLoadName(bo.X), fieldLoadName(bo.Y)
-		if !(l == "ReadSum" && rr == "ExpectedSum" || l == "ExpectedSum" && rr == "ReadSum") {
-			continue
-		}
-		// the edge taken when the sums differ, and the one taken when they agree
-		diff, same := b.Succs[0], b.Succs[1]
-		if bo.Op == token.EQL {
-			diff, same = same, diff
-		}
-		if len(diff.Preds) != 1 {
-			continue
-		}
-		blamed, blamedWhenSame := false, false
-		for _, b2 := range vf.Blocks {
-			for _, ins := range b2.Instrs {
-				st, ok := ins.(*ssa.Store)
-				if !ok {
-					continue
-				}
-				fv := fieldOfAddr(st.Addr)
-				if fv == nil || fv.Name() != "Err" {
-					continue
-				}
-				mi, ok := st.Val.(*ssa.MakeInterface)
-				if !ok || !strings.Contains(mi.X.Type().String(), "ErrChecksumMismatch") {
-					continue
-				}
-				if diff.Dominates(b2) {
-					blamed = true
-				} else if b2 == same || (len(same.Preds) == 1 && same.Dominates(b2)) || reachesBlock(same, b2) && !reachesBlock(diff, b2) {
-					blamedWhenSame = true
+	}
+	// blame: the instruction stores an ErrChecksumMismatch into an Err field, or returns one from a function
+	// whose error result the caller stores into Err
+	isMismatchVal := func(v ssa.Value) bool {
+		mi, ok := v.(*ssa.MakeInterface)
+		return ok && strings.Contains(mi.X.Type().String(), "ErrChecksumMismatch")
+	}
+	resultStoredToErr := func(fn *ssa.Function) bool {
+		for _, caller := range cmpFns {
+			for _, b := range caller.Blocks {
+				for _, ins := range b.Instrs {
+					c, ok := ins.(*ssa.Call)
+					if !ok || c.Call.StaticCallee() != fn {
+						continue
+					}
+					for _, ref := range *c.Referrers() {
+						if st, ok := ref.(*ssa.Store); ok && st.Val == ssa.Value(c) {
+							if fv := fieldOfAddr(st.Addr); fv != nil && fv.Name() == "Err" {
+								return true
+							}
+						}
+					}
 				}
 			}
 		}
-		// every path from the differing edge must pass a blame store: the blame block post-dominates the edge
-		if blamed && !blamedWhenSame && allPathsStoreMismatch(diff) {
-			okRead = true
+		return false
+	}
+	blames := func(fn *ssa.Function, ins ssa.Instruction) bool {
+		switch x := ins.(type) {
+		case *ssa.Store:
+			fv := fieldOfAddr(x.Addr)
+			return fv != nil && fv.Name() == "Err" && isMismatchVal(x.Val)
+		case *ssa.Return:
+			for _, res := range x.Results {
+				if isMismatchVal(res) && resultStoredToErr(fn) {
+					return true
+				}
+			}
+		}
+		return false
+	}
+	for _, fn := range cmpFns {
+		fnLive := liveBlocks(fn)
+		for _, b := range fn.Blocks {
+			ifi, ok := b.Instrs[len(b.Instrs)-1].(*ssa.If)
+			if !ok || !fnLive[b] {
+				continue
+			}
+			bo, ok := ifi.Cond.(*ssa.BinOp)
+			if !ok || (bo.Op != token.NEQ && bo.Op != token.EQL) {
+				continue
+			}
+			l, rr := fieldLoadName(bo.X), fieldLoadName(bo.Y)
+			if !(l == "ReadSum" && rr == "ExpectedSum" || l == "ExpectedSum" && rr == "ReadSum") {
+				continue
+			}
+			diff, same := b.Succs[0], b.Succs[1]
+			if bo.Op == token.EQL {
+				diff, same = same, diff
+			}
+			if len(diff.Preds) != 1 {
+				continue
+			}
+			blamed, blamedWhenSame := false, false
+			for _, b2 := range fn.Blocks {
+				for _, ins := range b2.Instrs {
+					if !blames(fn, ins) {
+						continue
+					}
+					if diff.Dominates(b2) {
+						blamed = true
+					} else if b2 == same || (len(same.Preds) == 1 && same.Dominates(b2)) || reachesBlock(same, b2) && !reachesBlock(diff, b2) {
+						blamedWhenSame = true
+					}
+				}
+			}
+			// every path from the differing edge blames
+			seen := map[*ssa.BasicBlock]bool{}
+			var all func(x *ssa.BasicBlock) bool
+			all = func(x *ssa.BasicBlock) bool {
+				if seen[x] {
+					return true
+				}
+				seen[x] = true
+				for _, ins := range x.Instrs {
+					if blames(fn, ins) {
+						return true
+					}
+					if _, ok := ins.(*ssa.Return); ok {
+						return false
+					}
+				}
+				for _, s2 := range x.Succs {
+					if !all(s2) {
+						return false
+					}
+				}
+				return len(x.Succs) > 0
+			}
+			if blamed && !blamedWhenSame && all(diff) {
+				okRead = true
+			}
 		}
 	}
 	r.Check(okRead, funcDisplay(vf)+":read-compare", p.Position(vf.Pos()), "storage blame iff ReadSum != ExpectedSum, reported as ErrChecksumMismatch",
@@ -1125,6 +1191,14 @@ func runFD08(p *Prog, r *RuleRun) {
 			for _, e := range x.Edges {
 				if isOwnStart(e, depth+1) {
 					return true
+				}
+			}
+		case *ssa.UnOp:
+			// a uint64 field of a parameter (the running state passed as a struct / receiver)
+			if fa, ok := x.X.(*ssa.FieldAddr); ok && x.Op == token.MUL {
+				if _, isParam := fa.X.(*ssa.Parameter); isParam {
+					b, ok := x.Type().Underlying().(*types.Basic)
+					return ok && b.Kind() == types.Uint64
 				}
 			}
 		}
